@@ -582,32 +582,37 @@ Section SaveRuns.
   Proof.
     intros Hwf Hod Ha. set (mp := com + 0x200) in *.
     destruct (od_parts c Hod) as (O1 & O2 & O3 & O5 & O6 & On).
-    unfold cfg_wfb in Hwf. unfold save_io, save_writes in *.
+    unfold cfg_wfb in Hwf. unfold save_io, save_prefix, save_entries, save_validate, save_writes in *.
     destruct (c_cob c) as [cob|] eqn:Hcob; [|discriminate].
     repeat (apply andb_prop in Hwf as [Hwf ?]).
     assert (Hrange : 0 <= cob < 2 ^ 29) by lia.
     unfold param_writes in Ha. rewrite <- !app_assoc in Ha.
     apply accepted_cons in Ha as [C1 Ha].
+    rewrite bind_assoc. cbv beta.
     rewrite bind_sdo_set_acc; auto.
     2:{ rewrite first_word by lia. unfold fits. change (2 ^ 32) with 4294967296.
         change (2 ^ 31) with 2147483648. change (2 ^ 30) with 1073741824. change (2 ^ 29) with 536870912 in *.
         destruct (c_rtr c); lia. }
     set (v0 := Z.lor (Z.lor cob PDO_NOT_VALID) (rtr_bit c)) in *.
+    cbv beta. rewrite bind_assoc. cbv beta.
     rewrite (bind_set_opt_acc (com_has od 2) 8 com 2 (c_tt c));
       [|now apply opt_has_present|assumption|exact (accepted_app_l _ _ _ Ha)].
     apply accepted_app_r in Ha.
     set (r2 := apply_writes (rset r0 com 1 v0) (opt_write com 2 (c_tt c))) in *.
     set (l2 := ([] ++ acc [(com, 1, v0)]) ++ acc (opt_write com 2 (c_tt c))) in *.
+    cbv beta. rewrite bind_assoc. cbv beta.
     rewrite (bind_set_opt_acc (com_has od 3) 16 com 3 (c_inhibit c));
       [|now apply opt_has_present|assumption|exact (accepted_app_l _ _ _ Ha)].
     apply accepted_app_r in Ha.
     set (r3 := apply_writes r2 (opt_write com 3 (c_inhibit c))) in *.
     set (l3 := l2 ++ acc (opt_write com 3 (c_inhibit c))) in *.
+    cbv beta. rewrite bind_assoc. cbv beta.
     rewrite (bind_set_opt_acc (com_has od 5) 16 com 5 (c_event c));
       [|now apply opt_has_present|assumption|exact (accepted_app_l _ _ _ Ha)].
     apply accepted_app_r in Ha.
     set (r5 := apply_writes r3 (opt_write com 5 (c_event c))) in *.
     set (l5 := l3 ++ acc (opt_write com 5 (c_event c))) in *.
+    cbv beta. rewrite bind_assoc. cbv beta.
     rewrite (bind_set_opt_acc (com_has od 6) 8 com 6 (c_sync c));
       [|now apply opt_has_present|assumption|exact (accepted_app_l _ _ _ Ha)].
     apply accepted_app_r in Ha. rename Ha into A6.
@@ -616,6 +621,7 @@ Section SaveRuns.
     (* count := 0 *)
     apply accepted_cons in A6 as [C0 A7].
     assert (Hm0 : map_has od 0 = true) by (unfold map_has, zlen in *; lia).
+    cbv beta.
     unfold bind at 1. unfold zero_count.
     rewrite sdo_set_acc; auto.
     (* entries *)
@@ -624,6 +630,7 @@ Section SaveRuns.
       match goal with H : forallb entry_wfb _ = true |- _ => rewrite forallb_forall in H; apply H in Hi end.
       apply entry_wfb_spec in Hi. rewrite entry_word_eq by lia. unfold map_word, fits.
       change (2 ^ 32) with 4294967296. lia. }
+    cbv beta. rewrite bind_assoc. cbv beta.
     rewrite (bind_write_entries_acc mp (c_map c) 1); auto;
       [|intros j Hj; unfold map_has; lia|exact (accepted_app_l _ _ _ A7)].
     apply accepted_app_r in A7. rename A7 into A8.
@@ -631,6 +638,7 @@ Section SaveRuns.
     set (l8 := (l6 ++ acc [(mp, 0, 0)]) ++ acc (entry_writes mp 1 (c_map c))) in *.
     (* count := n *)
     apply accepted_cons in A8 as [C9 A9].
+    cbv beta.
     unfold bind at 1. unfold set_count.
     rewrite sdo_set_acc; auto.
     2:{ unfold fits. change (2 ^ 8) with 256. unfold zlen in *. lia. }
